@@ -62,7 +62,7 @@ CLAIMED = {
           "Machine-checked invariant over all schedules of the process/file machine; the machine is tied to the real function by replaying generated schedules (threads, module-global interposition, real file system) and comparing per-process outcome and final file; the property is also evaluated directly on the real outcomes.",
           "File-system semantics (atomic no-overwrite link, private mkstemp names, loss of unflushed data) trusted. Secrecy clause: syntactic + byte scan only (partial).",
           "DESIGN.md §5 C06"),
-  "C07": ("Lean 4 theorems: well-formed plans cover every column once, the composed build_table returns exactly the plan's columns, the whole default-strategy synthesis in the model ends with a well-formed plan and exactly the input's columns; nulls only from the null range, strings are value-map entries or prefix*index, one row per unit + value-exact correspondence of the composed model of sample() (one cluster; all clusters with stitching; the default strategy with measures and plan search) with the real Synthesizer + sample() run on generated tables of every type under every strategy with schema/dtype/domain checks",
+  "C07": ("Lean 4 theorems: well-formed plans cover every column once, the composed build_table returns exactly the plan's columns, the whole default-strategy synthesis in the model ends with a well-formed plan and exactly the input's columns; nulls only from the null range, strings are value-map entries or prefix*index, one row per unit; from the typed input table for one cluster: one cell per input column, each a null or a value of the column's type, strings input strings or masks (C07_synthesize_single_domains) + value-exact correspondence of the composed model of sample() (one cluster; all clusters with stitching; the default strategy with measures and plan search) with the real Synthesizer + sample() run on generated tables of every type under every strategy with schema/dtype/domain checks",
           "Proof of the schema and domain clauses of the composed model for all inputs; the composed model reproduces sample() value for value; pandas astype / scikit-learn are exercised end to end on every run. That the run completes is not a theorem.",
           "pandas/scikit-learn outside the model. Known findings: RecursionError for float values closer than ~2^-900 of the column range (F10); ValueError when a cluster's microtable is empty while the table so far is not (F14, found by the thorough tier).",
           "DESIGN.md §5 C07"),
